@@ -11,7 +11,7 @@ LEVEL = "exploration"
 ENGINE = "E1"
 TECHNIQUE = "bounded exhaustive enumeration of non-empty-matching rules x listings with adjacent/separated/overlapping occurrences, both search modes, scan oracle on the reference match relation; plus boundary-length long listings"
 RULE = ("rules: every plain sequence of length 1..3 over {mov,push} (self-overlapping: 'a a', 'a b a'), the C02 repetition "
-        "family and the instruction-level C04 $not family, filtered by the reference to those that cannot match the empty "
+        "family and the instruction-level C04 $not family, capture rules, rules differing from the listing only in letter case, filtered by the reference to those that cannot match the empty "
         "sequence x EVERY listing of length 0..L over a 3-instruction alphabet (all adjacent / separated / overlapping "
         "layouts); long family: 2- and 3-instruction rules on periodic listings of N instructions for N around 2^13 and "
         "2^16 in all 3 phases. Oracle on the reference relation: reported spans record-aligned, pairwise disjoint, "
@@ -43,6 +43,9 @@ def all_rules(tier):
     for pat in (["&i", "&i"], ["&i", "push"], [{"push": ["&x"]}, {"push": ["&x"]}], [{"mov": ["&x", "&y"]}, "push"],
                 [{"mov": ["&x", "&y"]}], ["&i", "&j", "&i"], [{"push": ["&genreg-1.64"]}, {"push": ["&genreg-1.64"]}]):
         rules.append(e1.RuleCase("capture", pat, "c11", want=W))
+    # names that differ from the listing only in letter case: both search modes must treat them alike (not found)
+    for pat in (["MOV"], ["Mov", "push"], [{"push": ["%RAX"]}], ["mov", "PUSH"], [{"MOV": ["rax"]}, "push"]):
+        rules.append(e1.RuleCase("case", pat, "c11", want=W))
     c02 = importlib.import_module("checks.C02")
     c04 = importlib.import_module("checks.C04")
     r = rm.Ref()
